@@ -69,7 +69,7 @@ def settings_of(agent) -> Optional[Dict[str, Any]]:
     """The agent's settings as the trace cfg (None: not an agent this property talks about)."""
     from primaite.game.agent.scripted_agents.abstract_tap import AbstractTAP
     from primaite.game.agent.scripted_agents.probabilistic_agent import ProbabilisticAgent
-    from primaite.game.agent.scripted_agents.random_agent import PeriodicAgent
+    from primaite.game.agent.scripted_agents.random_agent import PeriodicAgent, RandomAgent
 
     s = agent.config.agent_settings
     base = {"kind": "", "start": 0, "startVar": 0, "freq": 1, "var": 0, "maxExec": 0, "nodes": [], "action": "",
@@ -82,6 +82,10 @@ def settings_of(agent) -> Optional[Dict[str, Any]]:
     if isinstance(agent, ProbabilisticAgent):
         probs = s.action_probabilities or {}
         base.update(kind="prob", p=[_pm(probs[i]) for i in range(len(probs))])  # by KEY: "probability of action i"
+        return base
+    if isinstance(agent, RandomAgent):
+        n = len(agent.action_manager.action_map)
+        base.update(kind="prob", p=[max(1, 1000 // max(1, n))] * n)  # every entry of its action map may be drawn
         return base
     if isinstance(agent, AbstractTAP):
         nodes = [str(n) for n in (s.starting_nodes or [])] or [str(s.default_starting_node)]
@@ -215,6 +219,13 @@ def prob_def(ref: str, table: List[Tuple[int, float]], host: str) -> Dict[str, A
             "action_space": {"action_map": {i: copy.deepcopy(acts[i]) for i in range(n)}}}
 
 
+def random_def(ref: str, host: str) -> Dict[str, Any]:
+    d = prob_def(ref, [(0, 0.25), (1, 0.25), (2, 0.25), (3, 0.25)], host)
+    d["type"] = "random-agent"
+    d["agent_settings"] = {}
+    return d
+
+
 def run_generated(agent_defs: List[Dict[str, Any]], steps: int, seed: int, label: str) -> Tuple[List[Dict[str, Any]], Dict[str, Any]]:
     import numpy as np
 
@@ -310,7 +321,8 @@ def tap_variant(cfg: Dict[str, Any], **kw) -> Dict[str, Any]:
 
 
 def run_env(env_config, label: str, steps: int, seed: int, blue: str, episodes: List[int], rng: random.Random,
-            stim_extra: Optional[Dict[str, Any]] = None) -> Tuple[List[Dict[str, Any]], Dict[str, Any]]:
+            stim_extra: Optional[Dict[str, Any]] = None, fixed_actions: Optional[List[int]] = None
+            ) -> Tuple[List[Dict[str, Any]], Dict[str, Any]]:
     """Run the given episode numbers of a scenario (dict, file or scheduled directory) through PrimaiteGymEnv."""
     from primaite.session.environment import PrimaiteGymEnv
 
@@ -319,15 +331,19 @@ def run_env(env_config, label: str, steps: int, seed: int, blue: str, episodes: 
     env = PrimaiteGymEnv(env_config=copy.deepcopy(env_config) if isinstance(env_config, dict) else env_config)
     for k, epno in enumerate(episodes):
         env.episode_counter = epno - 1
-        env.reset(seed=seed + 1000 * k)
+        env.reset(seed=seed + 1000 * k)  # NB the stimulus records this per-episode seed and k = 0 on replay
         ok, bad = valid_blue_actions(env.agent)
         stats["excluded_blue_actions"] = bad
         acts: List[int] = []
         stim = {"scenario": label, "seed": seed + 1000 * k, "episode": epno, "blue": blue, "actions": acts}
         stim.update(stim_extra or {})
         ep = Episode(env.game, label, stim)
-        for _ in range(steps):
-            if blue == "passive":
+        for i_step in range(steps):
+            if fixed_actions is not None:
+                if i_step >= len(fixed_actions):
+                    break
+                a = fixed_actions[i_step]
+            elif blue == "passive":
                 a = 0
             elif blue == "random":
                 a = rng.choice(ok)
@@ -359,32 +375,16 @@ def sig_fn(tr, event, stuck):
     return {"agent_type": tr.get("meta", {}).get("type"), "kind": tr["cfg"].get("kind")}
 
 
-def judge(chk: common.Check, traces: List[Dict[str, Any]], res: Dict[str, Any], per_signature: int = 2):
-    """common.judge_traces, but at most `per_signature` rejected traces per signature are turned into
-    VIOLATION lines / replay files (the sweeps reproduce one divergence hundreds of times); the others
-    are counted in the evidence."""
-    keep: List[int] = []
+def rejected_by_signature(traces: List[Dict[str, Any]], res: Dict[str, Any]) -> Dict[str, int]:
+    """How many traces TLC rejected, per (agent type, event, clause) - for the evidence."""
     seen: Dict[str, int] = {}
-    dup: Dict[str, int] = {}
-    for i, (tr, (reached, length), stuck) in enumerate(zip(traces, res["results"], res["stuck"])):
+    for tr, (reached, length), stuck in zip(traces, res["results"], res["stuck"]):
         if reached == length + 1:
-            keep.append(i)
             continue
         ev = tr["ev"][reached - 1] if 0 < reached <= length else {}
         fail = (stuck or {}).get("fail") or []
         key = f"{tr['meta'].get('type')}|{ev.get('ev')}|{','.join(sorted(fail)) if fail else 'no-matching-action'}"
         seen[key] = seen.get(key, 0) + 1
-        if seen[key] <= per_signature:
-            keep.append(i)
-        else:
-            dup[key] = dup.get(key, 0) + 1
-    sub = {"results": [res["results"][i] for i in keep], "stuck": [res["stuck"][i] for i in keep],
-           "states": res["states"], "distinct": res["distinct"]}
-    common.judge_traces(chk, "Agents", [traces[i] for i in keep], sub, sig_fn)
-    chk.cov["traces_validated_against_impl"] += len(traces) - len(keep)
-    chk.cov["rejected_traces_by_signature"] = seen
-    if dup:
-        chk.cov["further_rejected_traces_without_replay_file"] = dup
     return seen
 
 
@@ -404,18 +404,67 @@ def tap_coverage(traces: List[Dict[str, Any]]) -> Dict[str, int]:
     return c
 
 
+def replay(path: str) -> int:
+    """Re-execute the stimulus of a replay file and print the first event TLC cannot explain."""
+    import json
+
+    rep = json.loads(open(path).read())
+    det = rep["detail"]
+    stim = det["stimulus"]
+    who = det["meta"]["agent"]
+    common.boot()
+    install()
+    if stim.get("generated"):
+        trs, _ = run_generated(stim["agents"], stim["steps"], stim["seed"], "generated_lan")
+    else:
+        lab = stim["scenario"]
+        src = {"data_manipulation": "data_manipulation.yaml", "uc7_config": "uc7_config.yaml", "uc7_config_tap003": "uc7_config_tap003.yaml",
+               "uc7_config+settings": "uc7_config.yaml", "uc7_config_tap003+settings": "uc7_config_tap003.yaml"}
+        if lab in src:
+            cfg = scenarios.shipped(src[lab])
+            if stim.get("tap_settings"):
+                cfg = tap_variant(cfg, **stim["tap_settings"])
+        else:
+            cfg = str(scenarios.PKG / lab)
+        trs, _ = run_env(cfg, lab, len(stim["actions"]), stim["seed"], stim["blue"], [stim["episode"]], random.Random(0),
+                         fixed_actions=list(stim["actions"]))
+    trs = [t for t in trs if t["meta"]["agent"] == who]
+    res = tlc.validate("AgentsTrace", trs)
+    rc = 0
+    for tr, (reached, length), stuck in zip(trs, res["results"], res["stuck"]):
+        if reached == length + 1:
+            print(f"replay: trace of {who} accepted ({length} events)")
+            continue
+        rc = 1
+        print(f"replay: {who} ({tr['meta']['type']}) settings {tr['cfg']}")
+        print(f"  first unexplained event #{reached}: {tr['ev'][reached - 1]}")
+        print(f"  failing clauses: {(stuck or {}).get('fail')}  spec state before: {(stuck or {}).get('st')}")
+    return rc
+
+
 def main(tier: str, seed: int) -> int:
+    import time
+
     chk = common.Check(PROP, "model_checking", tier, seed)
     rng = random.Random(seed)
+    phase: Dict[str, float] = {}
+    t_ph = time.time()
+
+    def mark(name):
+        nonlocal t_ph
+        phase[name] = round(time.time() - t_ph, 1)
+        t_ph = time.time()
+
     quick = tier == "quick"
     # 1. the model
     r = tlc.mc("MC_Agents")
     if not r["ok"]:
         chk.violation({"module": "MC_Agents", "clause": str(r["violation"])}, {"tlc": r["output_tail"]})
     chk.add_mc("MC_Agents(start 0..4, startVar 0..2, freq 1..4, var<freq, maxExec 0..3, 12 ticks; tap start 0..2, freq 1..3, 5|6 stages, both repeat flags)", r)
-    for act in ("PeriodicAct", "PeriodicIdle", "ProbStep", "TapWait", "TapBegin", "TapWork", "TapGiveUp", "TapRestart", "TapConclude"):
+    for act in ("PeriodicAct", "PeriodicIdle", "ProbStep", "TapWait", "TapBegin", "TapWork", "TapGiveUp", "TapGiveUpRestart", "TapRestart", "TapConclude"):
         if r["coverage"].get(act, (0, 0))[1] == 0:
             raise tlc.TLCError(f"vacuous model: action {act} never taken")
+    mark("mc")
     # 2. settings from the model
     behs, info = tlc.simulate("MC_Agents", num=90 if quick else 500, depth=2, seed=seed + 1)
     chk.cov["transitions"] += info["states"]
@@ -426,9 +475,14 @@ def main(tier: str, seed: int) -> int:
             per.append((typ, {"start": s, "startVar": sv, "freq": f, "var": v, "maxExec": mx}))
     if not quick:
         per += mirrored_enumeration()
+    # max_executions is not honoured by the red-database-corrupting-agent (finding): so that this does not hide
+    # the rest of those episodes from the start / gap clauses, each of its settings is also run without a maximum
+    per += [(typ, {**st, "maxExec": None}) for typ, st in per if typ == "red-database-corrupting-agent" and st["maxExec"] is not None]
     prob_tables = prob_tables[: (4 if quick else 40)] + EDGE_PROB
+    mark("simulate")
     common.boot()
     install()
+    mark("boot")
     traces: List[Dict[str, Any]] = []
     # 2a. generated scenarios: six periodic agents + two probabilistic agents per game
     seeds = [seed + i for i in range(2 if quick else 3)]
@@ -450,12 +504,19 @@ def main(tier: str, seed: int) -> int:
             games += 1
         for typ, st in chunk:
             chk.add_case({"type": typ, **st}, nontrivial=True)
+    # a random-agent in games of its own (it raises on its first turn - finding - and would end every other
+    # agent's episode with it)
+    for sd in seeds[:2]:
+        trs, _ = run_generated([random_def("rand", HOSTS[2]), prob_def("prob_with_rand", EDGE_PROB[4], HOSTS[0])], 10, sd, "generated_lan")
+        traces += trs
+        games += 1
+    mark("generated")
     chk.cov["generated_games"] = games
     chk.cov["generated_settings"] = {"from_tlc_simulate": n_tlc_periodic, "edge_list": 2 * len(EDGE_PERIODIC),
                                      "mirrored_enumeration": 0 if quick else len(mirrored_enumeration()),
                                      "probability_tables": len(prob_tables)}
     # 3. shipped scenarios
-    steps = 60 if quick else 128
+    steps = 50 if quick else 128
     nseeds = 2 if quick else 3
     env_stats: Dict[str, Any] = {}
 
@@ -483,7 +544,7 @@ def main(tier: str, seed: int) -> int:
     for i in range(1 if quick else 2):
         # schedule: 0 TAP001_PC1, 1 TAP001_PC2, 2 TAP001_PC3, 5 TAP003   (quick: one TAP001 variant and the TAP003 one)
         traces += shipped_run(variants_dir, "uc7_multiple_attack_variants", "mixed" if i == 0 else "random",
-                              [rng.choice([0, 1, 2]), 5] if quick else [0, 1, 2, 5], seed + 41 * i, n_steps=45 if quick else None)
+                              [rng.choice([0, 1, 2]), 5] if quick else [0, 1, 2, 5], seed + 41 * i, n_steps=40 if quick else None)
     # 3b. the two UC7 files with other TAP settings (repeat flags, probabilities, schedule)
     tap_vars: List[Tuple[str, Dict[str, Any], str]] = [
         ("tap-001", dict(start_step=2, frequency=1, variance=0, repeat_kill_chain=True, repeat_kill_chain_stages=True), "passive"),
@@ -511,10 +572,14 @@ def main(tier: str, seed: int) -> int:
     for j, (typ, kw, blue) in enumerate(tap_vars):
         base = uc7 if typ == "tap-001" else uc7_3
         lab = "uc7_config+settings" if typ == "tap-001" else "uc7_config_tap003+settings"
-        traces += shipped_run(tap_variant(base, **kw), lab, blue, [1], seed + 51 + j, n_steps=45 if quick else None, extra={"tap_settings": kw})
+        traces += shipped_run(tap_variant(base, **kw), lab, blue, [1], seed + 51 + j, n_steps=40 if quick else None, extra={"tap_settings": kw})
+    mark("shipped")
     # 4. TLC judges every trace
     res = tlc.validate("AgentsTrace", traces, chunk=150)
-    rejected = judge(chk, traces, res)
+    common.judge_traces(chk, "Agents", traces, res, sig_fn)
+    mark("validation")
+    chk.cov["phase_wall_s"] = phase
+    chk.cov["rejected_traces_by_signature"] = rejected_by_signature(traces, res)
     kinds: Dict[str, int] = {}
     for tr in traces:
         k = tr["meta"]["type"]
